@@ -278,6 +278,7 @@ fn c07_case(rng: &mut Rng, sim: &mut Sim, sh: &mut Shard, tr: &mut Tracer, coord
         }
         // strictly deeper referrals: per question, the zone depth of the server asked increases
         let mut last: BTreeMap<String, i64> = BTreeMap::new();
+        let mut last_addr: BTreeMap<String, SocketAddr> = BTreeMap::new();
         for e in &out.log {
             let Some(eq) = e.question() else { continue };
             // only the user's own question: a name-server address lookup may legitimately be started afresh
@@ -287,6 +288,11 @@ fn c07_case(rng: &mut Rng, sim: &mut Sim, sh: &mut Shard, tr: &mut Tracer, coord
             }
             let depth: i64 = e.label.rsplit("@depth").next().and_then(|d| d.parse().ok()).unwrap_or(-1);
             let key = format!("{} {}", show_name(&eq.name), eq.qtype);
+            // the TCP repeat of a UDP exchange (truncated reply) goes to the same server: one query, not two
+            if e.transport == Transport::Tcp && last_addr.get(&key) == Some(&e.addr) {
+                continue;
+            }
+            last_addr.insert(key.clone(), e.addr);
             if let Some(prev) = last.get(&key) {
                 if depth <= *prev {
                     sh.violation(
